@@ -74,7 +74,8 @@ def _check_cell(kw):
     try:
         op_p = O.fold_op(proj, R.Cell(target="proton", **kw), prepare=no_isospin)
         op_proton = O.fold_op(proj, R.Cell(target="proton", **kw))
-        op_t = O.fold_op(proj, R.Cell(target={"Z": Z, "A": Aa}, **kw))
+        # the mapping is listed A first in half of the cells: it must be read by key
+        op_t = O.fold_op(proj, R.Cell(target={"Z": Z, "A": Aa} if kw.get("pto", 0) % 2 else {"A": Aa, "Z": Z}, **kw))
     except O.FoldFailure as f:
         return ("fold", f.outcome.status, f"{f.outcome.etype} {f.outcome.msg}", f.outcome.site, f.outcome.construct)
     bad = []
@@ -391,6 +392,15 @@ def check_table(rep, proj, tier):
     before = dict(obs["TargetDIS"])
     ev.call(S.FuncVal(ev, f), [obs], {})
     rep.check(obs["TargetDIS"] == before and set(obs) == {"TargetDIS"}, "C12.table", f.site, f"{f.fq}[dict]", "explicit (Z, A) passes through", "explicit (Z, A) dict is altered")
+    # a mapping is read by key: the order of its entries (alphabetical after a yaml/json round trip) is irrelevant
+    obs2 = {"TargetDIS": {"A": A.sym("Atarget"), "Z": A.sym("Ztarget")}}
+    try:
+        ev.call(S.FuncVal(ev, f), [obs2], {})
+        t2 = obs2["TargetDIS"]
+        same = isinstance(t2, dict) and set(t2) == {"Z", "A"} and A.canon(S.num_norm(t2["Z"])) == "Ztarget" and A.canon(S.num_norm(t2["A"])) == "Atarget"
+        rep.check(same, "C12.table", f.site, f"{f.fq}[dict, A first]", "explicit mapping read by key", f"an explicit mapping listed as (A, Z) becomes {t2}: entries are taken by position")
+    except (S.Raised, A.Undecided) as e:
+        rep.undecided("C12.table", f.site, f"{f.fq}[dict, A first]", f"not folded: {e}")
     try:
         ev.call(S.FuncVal(ev, f), [{"TargetDIS": "unobtainium"}], {})
         rep.bad("C12.table", f.site, f"{f.fq}[unknown]", "unknown target name is accepted silently")
